@@ -18,7 +18,30 @@ DSL_KEYWORDS = {"def", "salt", "splitters", "if", "else", "weighted", "return", 
 
 
 # --------------------------------------------------------------------------- values <-> JSON
+class Bomb:
+    """a field value whose every use raises an exception WITHOUT arguments (a bare `raise NotImplementedError`, as abstract
+    placeholders do): the evaluator and the generated module must fail in the same way"""
+
+    EXCS = {"NotImplementedError": NotImplementedError, "KeyError": KeyError, "ValueError": ValueError, "ZeroDivisionError": ZeroDivisionError}
+
+    def __init__(self, name):
+        self.name = name
+
+    def _boom(self, *a, **k):
+        raise self.EXCS[self.name]
+
+    __eq__ = __ne__ = __lt__ = __le__ = __gt__ = __ge__ = __contains__ = __str__ = __iter__ = __len__ = _boom
+
+    def __hash__(self):
+        raise self.EXCS[self.name]
+
+    def __repr__(self):
+        return "<value whose every use raises a bare %s>" % self.name
+
+
 def enc(v):
+    if isinstance(v, Bomb):
+        return {"t": "bomb", "v": v.name}
     if v is None:
         return {"t": "none"}
     if isinstance(v, bool):
@@ -44,6 +67,8 @@ def enc(v):
 
 def dec(d):
     t = d["t"]
+    if t == "bomb":
+        return Bomb(d["v"])
     if t == "none":
         return None
     if t == "bool":
